@@ -421,6 +421,29 @@ pub fn shapes(cfg: &Cfg, out: &mut Out<f64>) {
     out.notes.push(format!("cases={cases}"));
 }
 
+/// the probability argument of the confidence band: everything outside the open interval (0, 1) panics (documented),
+/// everything inside does not (C14; native replay of the Kani harness on the panic domain)
+pub fn bandpanic(_cfg: &Cfg, out: &mut Out<f64>) {
+    let (x, y, start) = data(8, 1);
+    let model = PlainModel { x, alpha: start, poison: None };
+    let problem = LevMarProblemBuilder::new(model).observations(y).build().unwrap();
+    let Ok((_fr, st)) = LevMarSolver::default().fit_with_statistics(problem) else {
+        out.notes.push("fit_with_statistics failed: nothing checked".into());
+        return;
+    };
+    let prev = std::panic::take_hook();
+    std::panic::set_hook(Box::new(|_| {}));
+    for p in [0.0f64, -0.0, 1.0, -1.0, 2.0, 1.0 + f64::EPSILON, -f64::MIN_POSITIVE, f64::NAN, f64::INFINITY, f64::NEG_INFINITY] {
+        let r = std::panic::catch_unwind(std::panic::AssertUnwindSafe(|| st.confidence_band_radius(p)));
+        out.fact("C14.rejects_probability_outside_open_interval", r.is_err(), format!("confidence_band_radius({p:?}) returned normally"));
+    }
+    for p in [0.5f64, f64::MIN_POSITIVE, 1e-300, 1.0 - f64::EPSILON / 2.0, 0.999999] {
+        let r = std::panic::catch_unwind(std::panic::AssertUnwindSafe(|| st.confidence_band_radius(p)));
+        out.fact("C14.accepts_probability_inside_open_interval", r.is_ok(), format!("confidence_band_radius({p:?}) panicked"));
+    }
+    std::panic::set_hook(prev);
+}
+
 /// builder decision table on concrete sizes (native replay / path validation for Engine M, C18)
 pub fn buildcase(cfg: &Cfg, out: &mut Out<f64>) {
     let (have_y, x, rows, cols) = (cfg.usize("have_y", 1) == 1, cfg.usize("x", 3), cfg.usize("rows", 3), cfg.usize("cols", 1));
@@ -504,7 +527,16 @@ pub fn fitmap(cfg: &Cfg, out: &mut Out<f64>) {
         let r = if with_stats { solver.fit_with_statistics(problem).map(|(f, _)| f) } else { solver.fit(problem) };
         match r {
             Ok(fr) => out.fact("C04.ok_iff_successful", fr.minimization_report.termination.was_successful(), format!("patience 1: Ok with {:?}", fr.minimization_report.termination)),
-            Err(fr) => out.fact("C04.ok_iff_successful", !fr.minimization_report.termination.was_successful(), format!("patience 1: Err with {:?}", fr.minimization_report.termination)),
+            Err(fr) => {
+                out.fact("C04.ok_iff_successful", !fr.minimization_report.termination.was_successful(), format!("patience 1: Err with {:?}", fr.minimization_report.termination));
+                // "in both cases hands back the final problem": the model never failed, so the problem still has its state
+                let r = fr.problem.residuals();
+                out.fact("C04.err_returns_the_final_problem_with_its_state", r.is_some() && fr.linear_coefficients().is_some(), format!("patience 1: Err({:?}) but the returned problem has no residuals/coefficients", fr.minimization_report.termination));
+                if let Some(r) = r {
+                    let obj = 0.5 * r.norm_squared();
+                    out.fact("C04.objective_is_half_squared_residual_norm", (obj - fr.minimization_report.objective_function).abs() <= 1e-9 * (1.0 + obj.abs()), format!("patience 1: {obj} vs {}", fr.minimization_report.objective_function));
+                }
+            }
         }
     }
     // (n, p, fail_at): converging fit, failing model, under-determined statistics
